@@ -262,9 +262,46 @@ func firstLine(s string) string {
 	return s
 }
 
+// permutations drives, for one generated set with at most four members, every order of
+// first executions of its members (each followed by a repetition of the first one).
+func permutations(c *core.Ctx, cf cfg, r *core.Rng) {
+	set := gen.GenSet(r, gen.SetOpts{Members: 2 + r.Intn(3), FailMembers: r.Intn(2)})
+	data := hist.GenData(r, 2)
+	var perm func(rest, acc []string)
+	perm = func(rest, acc []string) {
+		if len(rest) == 0 {
+			h := &hist.History{Data: data, NVar: 2}
+			h.Ops = append(h.Ops, hist.Op{Kind: "new", H: -1, Dst: 0, Name: "root"})
+			for _, t := range set.Texts {
+				h.Ops = append(h.Ops, hist.Op{Kind: "parse", H: 0, Dst: 0, Text: t})
+			}
+			for i, m := range acc {
+				h.Ops = append(h.Ops, hist.Op{Kind: "exect", H: 0, Dst: -1, Name: m, Data: i % 2})
+			}
+			h.Ops = append(h.Ops, hist.Op{Kind: "exect", H: 0, Dst: -1, Name: acc[0], Data: 0})
+			c.Journal(util.JSON(kase{History: h}))
+			judge(c, cf, h, false)
+			c.Count("first_execution_orders_driven", 1)
+			return
+		}
+		for i := range rest {
+			nr := append(append([]string{}, rest[:i]...), rest[i+1:]...)
+			perm(nr, append(append([]string{}, acc...), rest[i]))
+		}
+	}
+	perm(set.Members, nil)
+	c.Count("sets_with_all_first_execution_orders", 1)
+}
+
 func run(c *core.Ctx, cf cfg) {
 	r := c.Rng("histories")
 	n := cf.n(c) / c.NShards
+	if cf.id == "C06" {
+		rp := c.Rng("permutations")
+		for i := 0; i < c.N(1500, 30000)/c.NShards; i++ {
+			permutations(c, cf, rp)
+		}
+	}
 	for i := 0; i < n; i++ {
 		h, set := hist.Gen(r, cf.gopts(r, i))
 		for _, m := range set.Modes {
